@@ -205,8 +205,12 @@ def gen_rpms_op(rng, pool, invalid=None):
     args = {"variant": rng.choice(VARIANTS), "arch": rng.choice(TREE_ARCHES), "nevra": render_nevra(rng, parts),
             "path": "%s/%s/os/Packages/%s/%s.rpm" % (rng.choice(VARIANTS), rng.choice(TREE_ARCHES), parts["name"][0].lower(),
                                                     "%(name)s-%(version)s-%(release)s.%(arch)s" % parts),
-            "sigkey": rng.choice([None, None, "fd431d51", "FD431D51", "Fd431d51", "4AE0493B", "81b46521", ""]),
+            "sigkey": rng.choice([None, None, "fd431d51", "FD431D51", "Fd431d51", "4AE0493B", "81b46521", "",
+                                  # long key ids and fingerprints are signing keys too; short ones
+                                  "199E2F91FD431D51", "6a2faea2352c64e5", "567E347AD0044ADE55BA8A5F199E2F91FD431D51", "a1", "0"]),
             "category": category, "srpm_nevra": None if use_src else render_nevra(rng, pkg["src"])}
+    if rng.random() < 0.08:
+        args["path"] = rng.choice(["café/", "日本/", "Ünïcode dir/"]) + args["path"]      # paths are free text
     meta = {"nevra_parts": dict(parts), "srpm_parts": None if use_src else dict(pkg["src"]), "invalid": invalid}
     if invalid is None:
         return {"kind": "rpms", "args": args, "meta": meta}
@@ -315,6 +319,9 @@ def gen_modules_op(rng, invalid=None):
                                                          rng.randint(1, 50))) for _ in range(rng.randint(0, 4))]}
     if rng.random() < 0.2:
         args["rpms"] = tuple(args["rpms"])
+    if rng.random() < 0.08:
+        args["modulemd_path"] = "módulos/" + args["modulemd_path"]
+        args["koji_tag"] = args["koji_tag"] + rng.choice(["-é", "-日本"])
     meta = {"uid_parts": u, "invalid": invalid}
     if invalid is None:
         return {"kind": "modules", "args": args, "meta": meta}
@@ -358,6 +365,8 @@ def gen_extra_op(rng, invalid=None):
     args = {"variant": rng.choice(VARIANTS), "arch": rng.choice(TREE_ARCHES + ["src"]),
             "path": "%s/%s/os/%s" % (rng.choice(VARIANTS), rng.choice(TREE_ARCHES), rng.choice(["GPL", "EULA", "RPM-GPG-KEY", "media.repo", "a/b/c.txt"])),
             "size": rng.choice([0, 1, 18092, 2 ** 32 + 1]), "checksums": checksums}
+    if rng.random() < 0.1:
+        args["path"] = args["path"].rsplit("/", 1)[0] + "/" + rng.choice(["LÉEME", "許諾.txt", "Лицензия", "licence – fr.txt"])
     meta = {"invalid": invalid}
     if invalid == "empty-variant":
         args["variant"] = rng.choice(["", None])
